@@ -85,10 +85,9 @@ def run(prog, run):
     for targs, f in sorted(thens.items()):
         run.instance(r3)
         problems = []
-        lams = prog.lambdas_in(f, recursive=False)
-        wrapper = [l for l in lams if any(True for _ in l.calls(TP + '::setContinuation'))]
         setctx = [i for i, n in f.calls(TP + '::setContext')]
         setcont = [i for i, n in f.calls(TP + '::setContinuation')]
+        wrapper = [w for c in setcont for w, _ in _wrappers(prog, f, c)]
         if not wrapper or not setcont:
             problems.append('no self-clearing wrapper is registered')
         else:
@@ -96,7 +95,7 @@ def run(prog, run):
             clears = [i for i, n in w.calls(TP + '::setContinuation')]
             if not any(_always(w, c) for c in clears):
                 problems.append('the wrapper does not clear the continuation on every path')
-            user_calls = [i for i, n in w.calls() if n.get('op') == '()' and w.nodes[w.skip(n['opargs'][0])].get('name') == 'f']
+            user_calls = [i for i, n in w.calls() if n.get('op') == '()' and w.nodes[w.skip(n['opargs'][0])].get('vk') != 'param']
             if not user_calls:
                 problems.append('the wrapper never calls the user functor')
             elif not all(_has_assert(w, i, TP + '::isContextAlive', True) for i in user_calls):
@@ -132,22 +131,22 @@ def run(prog, run):
             run.ok(r3, f.loc(), 'then%s conforms' % targs[:60])
 
     r5 = run.rule('C13.R5', 'the shared record frees its value, and only the promise/task templates (and the ready-task helpers) touch its state', floor=6)
+    rec = prog.record('QXmpp::Private::TaskData')
+    roles = _roles(rec)
     run.instance(r5)
     dt = [f for f in prog.fns.values() if f.qname == 'QXmpp::Private::TaskData::~TaskData']
-    if dt and any('freeResult' in dt[0].fmt(i) for i, n in dt[0].calls()) :
-        run.ok(r5, dt[0].loc(), '~TaskData releases the stored value through freeResult')
+    dseq = _seqs(prog, dt[0], roles) if dt else set()
+    if dseq and all('free' in q and '?' not in q for q in dseq):
+        run.ok(r5, dt[0].loc(), '~TaskData releases the stored value through the deleter (on every path with a deleter)')
     else:
-        run.violation(r5, 'TaskData#leak', 'src/base/QXmppTask.cpp', 'the shared task record does not free a stored result on destruction')
+        run.violation(r5, 'TaskData#leak', dt[0].loc() if dt else 'src/base/QXmppTask.cpp', 'the shared task record does not free a stored result on destruction')
     sr = prog.fn(TP + '::setResult')
     run.instance(r5)
-    frees = [i for i, n in sr.calls() if 'freeResult' in sr.fmt(i)]
-    assigns = [i for i, n in sr.all_nodes('assign') if sr.nodes[sr.skip(n['l'])].get('name') == 'result']
-    guards = [sr.fmt(c) for c, pol in sr.atomic_assertions_at(frees[0])] if frees else ['?']
-    before = frees and assigns and (sr.pos(frees[0])[0] in sr.reachable_blocks()) and not sr.node_dominates(assigns[0], frees[0])
-    if frees and assigns and before and all('freeResult' in g for g in guards):
+    sseq = _seqs(prog, sr, roles)
+    if sseq and all('store' in q and '?' not in q and 'free' in q[:q.index('store')] for q in sseq):
         run.ok(r5, sr.loc(), 'setResult frees the previous value before storing the new one')
     else:
-        run.violation(r5, 'TaskPrivate::setResult#leak', sr.loc(), 'setResult overwrites a stored value without freeing it')
+        run.violation(r5, 'TaskPrivate::setResult#leak', sr.loc(), 'setResult overwrites a stored value without freeing it (effect sequences with a deleter: %s)' % sorted(sseq))
     for callee in ('setFinished', 'setContinuation', 'invokeContinuation', 'setResult', 'resetResult', 'setContext'):
         for f, i in prog.callers_by_qname(TP + '::' + callee):
             if f.nodes[i]['k'] != 'call':
@@ -166,22 +165,26 @@ def run(prog, run):
     for targs, f in sorted(thens.items()):
         run.instance(r6)
         bad = None
-        for l in prog.lambdas_in(f, recursive=False):
-            if not any(True for _ in l.calls(TP + '::setContinuation')) and not any(True for _ in l.calls(TP + '::isContextAlive')):
-                continue
-            # captures are recorded on the lambda expression node in the enclosing function
-            for i, n in f.all_nodes('lambda'):
-                if l.id in (n.get('fns') or []):
-                    for c in n.get('caps', []):
-                        t = c.get('t') or ''
-                        if not t and c.get('init') is not None:
-                            t = f.nodes[c['init']].get('t') or f.nodes[f.skip(c['init'])].get('t') or f.nodes[f.skip(c['init'])].get('cls') or ''
-                            if not t:
-                                t = ' '.join(str(f.nodes[j].get('t') or '') for j in f.walk(c['init']))
-                        if not t and c.get('name') == 'this':
-                            continue
-                        if 'TaskPrivate' in t and not c.get('byref') and not t.strip().endswith('&'):
-                            bad = (i, c.get('name') or 'd', t)
+        for c, _n in f.calls(TP + '::setContinuation'):
+            for w, how in _wrappers(prog, f, c):
+                if how[0] == 'functor':
+                    # a named functor: what it holds are its members
+                    for fl in how[1].get('fields', []):
+                        t = fl.get('t') or ''
+                        if 'TaskPrivate' in t and not t.strip().endswith('&') and not t.strip().endswith('*'):
+                            bad = (c, fl['name'], t)
+                    continue
+                n = f.nodes[how[1]]
+                for cp in n.get('caps', []):
+                    t = cp.get('t') or ''
+                    if not t and cp.get('init') is not None:
+                        t = f.nodes[cp['init']].get('t') or f.nodes[f.skip(cp['init'])].get('t') or f.nodes[f.skip(cp['init'])].get('cls') or ''
+                        if not t:
+                            t = ' '.join(str(f.nodes[j].get('t') or '') for j in f.walk(cp['init']))
+                    if not t and cp.get('name') == 'this':
+                        continue
+                    if 'TaskPrivate' in t and not cp.get('byref') and not t.strip().endswith('&'):
+                        bad = (how[1], cp.get('name') or 'd', t)
         if bad:
             run.violation(r6, 'QXmppTask::then#continuation-owns-record', f.loc(bad[0]),
                           'then%s: the stored continuation captures %s (%s) by value: the shared record now holds a reference to itself, so the record, the functor and what '
@@ -193,19 +196,99 @@ def run(prog, run):
                             'back of the registration protocol)', floor=4)
     from ..effects import field_uses
     owners = {'continuation': ('setContinuation',), 'context': ('setContext',), 'finished': ('setFinished',), 'result': ('setResult', 'resetResult'), 'freeResult': ('setResult', 'TaskPrivate')}
-    rec = prog.record('QXmpp::Private::TaskData')
+    callers = prog.callers()
+
+    def writer_ok(g, role, depth=0):
+        """g is the setter of the member with this role, the record's constructor/destructor, or a member function of the record
+        that is called only from such functions (an extracted part of the setter)"""
+        if g.is_lambda or depth > 3:
+            return False
+        direct = g.qname.split('::')[-1]
+        if direct.startswith('~') or direct.startswith('TaskPrivate') or direct.startswith('TaskData'):
+            return True
+        if g.qname.startswith(TP + '::') and direct in owners[role]:
+            return True
+        if g.qname.startswith('QXmpp::Private::TaskData::'):
+            cs = [c for c, _ in callers.get(g.id, [])]
+            return bool(cs) and all(writer_ok(c, role, depth + 1) for c in cs)
+        return False
     for fl in rec['fields']:
         q = fl.get('qname') or ('QXmpp::Private::TaskData::' + fl['name'])
+        role = [r for r, fq in roles.items() if fq == q]
         for g, i, k, h in field_uses(prog, q):
             if k not in ('write', 'addr') or h == 'constructor initialiser':
                 continue
             run.instance(r7)
-            direct = g.qname.split('::')[-1] if not g.is_lambda else None
             top = top_function(prog, g)
-            allowed = owners.get(fl['name'], ())
-            if direct in allowed or (direct and direct.startswith('TaskPrivate')) or (direct and direct.startswith('~')):
-                run.ok(r7, g.loc(i), '%s written by %s' % (fl['name'], direct), nontrivial=False)
+            if role and writer_ok(g, role[0]):
+                run.ok(r7, g.loc(i), '%s (%s) written by %s' % (fl['name'], role[0], g.qname.split('::')[-1]), nontrivial=False)
             else:
-                run.violation(r7, 'TaskData::%s#writer:%s' % (fl['name'], top.qname.split('::')[-1] + ('#lambda' if g.is_lambda else '')), g.loc(i),
+                run.violation(r7, 'TaskData::%s#writer:%s' % (role[0] if role else fl['name'], top.qname.split('::')[-1] + ('#lambda' if g.is_lambda else '')), g.loc(i),
                               'TaskData::%s is written in %s%s, outside its setter: a handler registered for one continuation/context can clear a later registration'
                               % (fl['name'], top.display()[:50], ' (inside a lambda, e.g. a signal handler)' if g.is_lambda else ''))
+
+
+def _wrappers(prog, f, call):
+    """the callable(s) handed to this setContinuation call: [(Fn of its operator(), ('lambda', lambda node id) | ('functor', record))]"""
+    out = []
+    n = f.nodes[call]
+    for a in n.get('args', []):
+        for j in f.walk(a):
+            m = f.nodes[j]
+            if m['k'] == 'lambda':
+                for l in prog.lambda_fns(f, m):
+                    out.append((l, ('lambda', j)))
+            elif m['k'] in ('initlist', 'construct') and m.get('t') and not (m.get('t') or '').startswith('std::function'):
+                t = m['t']
+                for g in prog.fns.values():
+                    if g.name == 'operator()' and not g.is_lambda and (g.qname == t + '::operator()' or g.qname.endswith('::' + t + '::operator()')) \
+                            and g.qname.startswith(f.qname.rsplit('::', 1)[0] + '::'):
+                        rec = prog.records.get(g.qname[:-len('::operator()')]) or {}
+                        out.append((g, ('functor', rec)))
+    seen, uniq = set(), []
+    for w, how in out:
+        if w.id not in seen:
+            seen.add(w.id)
+            uniq.append((w, how))
+    return uniq
+
+
+def _roles(rec):
+    """the members of the shared record by what they are (type), not by how they are called"""
+    roles = {}
+    for fl in rec['fields']:
+        t = fl.get('t') or ''
+        role = ('continuation' if t.startswith('std::function') else 'context' if t.startswith('QPointer') else 'finished' if t == 'bool'
+                else 'freeResult' if '(*)' in t else 'result' if t.replace(' ', '') == 'void*' else None)
+        if role is None or role in roles:
+            raise AnalysisBroken('C13: the shared record has a member the checker cannot classify: %s %s' % (t, fl['name']))
+        roles[role] = fl.get('qname') or ('QXmpp::Private::TaskData::' + fl['name'])
+    if len(roles) != 5:
+        raise AnalysisBroken('C13: shared record members found: %s' % sorted(roles))
+    return roles
+
+
+def _seqs(prog, g, roles, depth=0):
+    """effect sequences ('free' = deleter(value), 'store' = value member assigned) over all paths of g when a deleter is set; calls to
+    member functions of the record / of TaskPrivate are inlined"""
+    ev = cfgx.Evaluator(g, {'field:' + roles['freeResult']: True})
+
+    def transfer(f, nid, st):
+        n = f.nodes[nid]
+        if n['k'] == 'call' and 'fn' in n and not f.cname(n):
+            callee = f.nodes[f.skip(n['fn'])]
+            if callee.get('k') == 'mem' and callee.get('f') == roles['freeResult'] and n.get('args') \
+                    and f.nodes[f.skip(n['args'][0])].get('f') == roles['result']:
+                return st + ('free',)
+        if n['k'] == 'assign' and f.nodes[f.skip(n['l'])].get('f') == roles['result']:
+            return st + ('store',)
+        if n['k'] == 'call' and (not n.get('op')) and depth < 3:
+            for h in prog.callee_fns(f, n):
+                if h.qname.startswith(('QXmpp::Private::TaskData::', TP + '::')) and h.entry is not None and h.id != f.id:
+                    sub = _seqs(prog, h, roles, depth + 1)
+                    if len(sub) == 1:
+                        return st + next(iter(sub))
+                    return st + ('?',)
+        return None
+    exits, _ = cfgx.explore(g, (), transfer, lambda f, c, st: ev.ev(c, st))
+    return set(exits)
